@@ -11,7 +11,9 @@ RULE = (
     "of every rebuilding run: write_end < read_start < consumer start, plain dependents after the write, downstream "
     "stored values rewritten later in the same run, consumers and the output hold the very object returned by the "
     "store's read (identity), out-of-date dependent sources read after their producer; non-trivial = a rebuilt value had "
-    "an executing consumer; distinct by (structure, step sequence)"
+    "an executing consumer; distinct by (structure, step sequence). mode registered_gather: a registered gathered list / tuple / dict of "
+    "calls and literals behind a store whose read re-boxes every element, taken apart by Plan.unpack or indexing, store absent / out of "
+    "date / up to date: every consumer of a part holds a part of what read returned (identity), after the single write"
 )
 ASSUMPTIONS = [
     "events are stamped under the harness lock inside the stores and the plan's functions",
@@ -30,6 +32,10 @@ def gen_cases(tier, seed):
     # value whose other stored input is being rebuilt and answers slowly (vmon/preempt.py, run_stale_join_then)
     for W in ((3,) if tier == "quick" else (3, 4, 8)):
         out.append({"seed": env.seed_for(seed, ID, tier, "stale_join_then", W), "mode": "preempt_stale_join", "W": W})
+    # a REGISTERED gathered container (plan.gather of symbolic values: list, tuple, dict, nested) that is taken apart again with Plan.unpack or
+    # indexing: the parts its consumers receive are parts of what the store's read returned, never the element calls' in-memory results
+    for i in range(150 if tier == "quick" else 3000):
+        out.append({"seed": env.seed_for(seed, ID, tier, "registered_gather", i), "mode": "registered_gather"})
     return out
 
 
@@ -38,7 +44,137 @@ def run_case(desc):
         from vmon import preempt
 
         return preempt.enumerate_stale_join_then(desc)
+    if desc.get("mode") == "registered_gather":
+        return run_registered_gather(desc)
     return histcheck.run_case(desc, "C09", ("C09",), "c09_rebuilt_with_executing_consumer")
+
+
+class Boxed:
+    """What the normalising store hands out in place of each element it was given: never identical to anything a call returned."""
+
+    __slots__ = ("inner", "read_no")
+
+    def __init__(self, inner, read_no):
+        self.inner, self.read_no = inner, read_no
+
+    def __repr__(self):
+        return f"Boxed({self.inner!r}, read {self.read_no})"
+
+
+def run_registered_gather(desc):
+    import datetime as dt
+    import hashlib
+    import threading
+
+    import uberjob
+
+    rng = random.Random(desc["seed"])
+    lock = threading.Lock()
+    ev = []  # (what, ...) in real order, stamped under the lock
+
+    class GStore(uberjob.ValueStore):
+        def __init__(self, mtime):
+            self.mtime, self.content, self.reads = mtime, None, 0
+
+        def read(self):
+            with lock:
+                self.reads += 1
+                c = self.content
+                out = ({k: Boxed(v, self.reads) for k, v in c.items()} if isinstance(c, dict) else type(c)(Boxed(v, self.reads) for v in c))
+                ev.append(("read", out))
+                return out
+
+        def write(self, value):
+            with lock:
+                ev.append(("write", value))
+                self.content, self.mtime = value, dt.datetime(2030, 1, 1)
+
+        def get_modified_time(self):
+            return self.mtime
+
+    n = rng.randint(1, 4)
+    shape = rng.choice(["tuple", "tuple", "list", "dict"])
+    access = rng.choice(["unpack", "unpack", "getitem"]) if shape != "dict" else "getitem"
+    state = rng.choice(["absent", "stale", "fresh", "fresh"])
+    W = rng.choice([1, 2, 4])
+    plan = uberjob.Plan()
+    reg = uberjob.Registry()
+    raw = [object() for _ in range(n)]
+
+    def make(j):
+        def element():
+            with lock:
+                ev.append(("element", j))
+            return raw[j]
+        return element
+
+    elems = [plan.call(make(j)) for j in range(n)]
+    if rng.random() < 0.3 and n > 1:
+        elems[-1] = plan.lit(raw[-1])  # a gathered container of calls and plain literals
+    keys = [f"k{j}" for j in range(n)]
+    g = plan.gather({"tuple": tuple(elems), "list": list(elems), "dict": dict(zip(keys, elems))}[shape])
+    src_time = dt.datetime(2020, 1, 1)
+    st = GStore({"absent": None, "stale": dt.datetime(2019, 1, 1), "fresh": dt.datetime(2021, 1, 1)}[state])
+    if state != "absent":
+        st.content = {"tuple": tuple(raw), "list": list(raw), "dict": dict(zip(keys, raw))}[shape]
+    reg.add(g, st)
+    if state == "stale":
+        # something upstream newer than the stored container
+        from uberjob.stores import LiteralSource
+        s0 = reg.source(plan, LiteralSource(0, src_time))
+        plan.add_dependency(s0, g)
+    if access == "unpack":
+        parts = list(plan.unpack(g, n))
+    else:
+        import operator
+        parts = [plan.call(operator.getitem, g, (keys[j] if shape == "dict" else j)) for j in range(n)]
+    got = {}
+
+    def consumer(j, x):
+        with lock:
+            got[j] = x
+            ev.append(("consume", j))
+        return x
+
+    outs = [plan.call(consumer, j, parts[j]) for j in range(n)]
+    res = uberjob.run(plan, output=outs, registry=reg, max_workers=W, progress=None, scheduler=rng.choice(["default", "random"]))
+    bad = None
+    reads = [e[1] for e in ev if e[0] == "read"]
+    rebuilt = state != "fresh"
+    n_elem = sum(1 for e in ev if e[0] == "element")
+    checks = 0
+    if not reads:
+        bad = "the registered container was never read from its store although its parts were consumed"
+    else:
+        handed = reads[-1] if len(reads) == 1 else None
+        for j in range(n):
+            x = got.get(j)
+            checks += 1
+            cand = [(r[keys[j]] if shape == "dict" else r[j]) for r in reads]
+            if not any(x is c for c in cand):
+                bad = (f"consumer {j} of a part of the registered {shape} received {x!r}, which is not a part of what the store's read returned "
+                       f"({'the in-memory result of the element call' if x is raw[j] else 'something else'}; store was {state}, access by {access})")
+                break
+            if res[j] is not x:
+                bad = f"run's output {j} is not what consumer {j} returned"
+                break
+    if not bad and rebuilt:
+        wi = [k for k, e in enumerate(ev) if e[0] == "write"]
+        ri = [k for k, e in enumerate(ev) if e[0] == "read"]
+        ci = [k for k, e in enumerate(ev) if e[0] == "consume"]
+        if len(wi) != 1:
+            bad = f"the out-of-date container ({state}) was written {len(wi)} times"
+        elif not all(any(wi[0] < r < c for r in ri) for c in ci):
+            bad = f"order of write / read / consumers broken: {[e[0] for e in ev]}"
+    if not bad and not rebuilt and (n_elem or any(e[0] == "write" for e in ev)):
+        bad = f"the stored container was up to date, yet {n_elem} element calls ran / it was written"
+    r = {"status": "ok", "counters": {"registered_gather_cases": 1, "c09_normalising_identity_checks": checks, f"registered_gather_{shape}_{access}": 1,
+                                      f"registered_gather_store_{state}": 1, "c09_rebuilt_with_executing_consumer": int(rebuilt)},
+         "nontrivial": True, "sig": hashlib.sha1(f"rg{n}{shape}{access}{state}{W}".encode()).hexdigest()[:16]}
+    if bad:
+        r.update(status="violation", detail=f"[registered gather, {shape} of {n}, {access}, store {state}, W={W}] {bad}", mechanism="c09-registered-gather",
+                 witness={"shape": shape, "n": n, "access": access, "state": state, "W": W, "events": [e[0] for e in ev]})
+    return r
 
 
 def finalize(agg, tier):
@@ -48,6 +184,8 @@ def finalize(agg, tier):
         reasons.append("fewer than 100 rebuilt values with an executing consumer")
     if c["preempt_stale_join_holds_other_completed"] < 50:
         reasons.append("stale-check preemption (join_then): fewer than 50 holds during which the other source's worker completed its bookkeeping")
+    if c["registered_gather_tuple_unpack"] < 10 or c["registered_gather_cases"] < 100:
+        reasons.append("fewer than 100 registered-gather cases (10 with a tuple taken apart by Plan.unpack)")
     if c["c09_normalising_identity_checks"] < 200:
         reasons.append("fewer than 200 identity checks against normalising stores")
     return reasons
